@@ -45,7 +45,8 @@ def case_st(draw):
             "size_as": draw(st.sampled_from(["Q", "A0"])), "extra_same": draw(st.booleans()),
             "extra_other": draw(st.booleans()), "with_part": draw(st.booleans()),
             "aspect": [draw(st.sampled_from([0.5, 1.0, 2.0])) for _ in range(3)],
-            "box_units": [pu if exact else draw(st.sampled_from(LU)) for _ in range(3)]}
+            "box_units": [pu if exact else draw(st.sampled_from(LU)) for _ in range(3)],
+            "reparent": draw(st.sampled_from([None, None, "copy_recentre", "share_no_mesh"]))}
 
 
 def _snap_ds(ds):
@@ -107,6 +108,22 @@ def extract(case, r):
         oth["stuff"] = osyris.Array(values=np.arange(n_mesh + 3, dtype=np.float64), unit="s")
         ds["other"] = oth
     ds.meta.update({"time": 1.5, "ndim": nvec, "note": "x"})
+    # the groups of ds may also have been inserted into other datasets (Dataset.copy() re-inserts the same group
+    # objects): extraction must still use the positions of the dataset it is given
+    keep_alive = []
+    if case.get("reparent") == "copy_recentre":
+        other = ds.copy()
+        far = osyris.Datagroup()
+        far["position"] = osyris.Vector(*[osyris.Array(values=pm[:, i] + 1.0e3, unit=case["pu"]) for i in range(nvec)])
+        far["density"] = osyris.Array(values=np.arange(n_mesh, dtype=np.float64) + 0.5, unit="g/cm**3")
+        other["mesh"] = far
+        keep_alive.append(other)
+        r.label("groups_shared_with_other_dataset")
+    elif case.get("reparent") == "share_no_mesh" and case["extra_same"]:
+        other = osyris.Dataset()
+        other["extra"] = ds["extra"]
+        keep_alive.append(other)
+        r.label("groups_shared_with_other_dataset")
 
     # ---- region
     if case["exact"]:
